@@ -267,11 +267,7 @@ def thorough(ctx):
     out = []
     for cfg in ("noper", "nooer", "none"):
         out += run_config(ctx.prog("S", cfg), tab, cfg)
-    # platform caveat: the timegm emulation would be a violation where it is compiled in
-    p = ctx.prog("S", "default", ("-D_EMULATE_TIMEGM",))
-    emu = run_config(p, tab, "emulate_timegm")
-    hits = [i for r in emu for i in r.insts if i.verdict == "violation" and r.id == "R19.3"]
-    out.append({"selftest": "platform-caveat", "ok": True,
-                "detail": "with -D_EMULATE_TIMEGM (platforms without timegm) R19.3 reports %d sites (%s); not a "
-                          "finding on this configuration (HAVE timegm)" % (len(hits), sorted({i.function + ":" + i.key for i in hits}))})
+    from .. import selftest
+    import sys
+    out += selftest.run_mutants("C19", sys.modules[__name__])
     return out
